@@ -30,17 +30,6 @@ Z3F = dict(Z3_FUNC)
 Z3F.update({"LShR": "LSHR_SAT"})
 
 
-def _classify_sdivC(m):
-    f = m.func("TranslatorZ3._sdivC")
-    t = norm(ast.Module(body=f.body, type_ignores=[])).replace(" ", "")
-    ok = "z3.UDiv(self._abs(num),self._abs(den))*result_sign" in t and "z3.If(num_s*den_s>=0" in t and \
-        "num_expr.signExtend(num_expr.size*2)" in t and "den_expr.signExtend(den_expr.size*2)" in t
-    a = m.func("TranslatorZ3._abs")
-    ta = norm(ast.Module(body=a.body, type_ignores=[])).replace(" ", "")
-    ok = ok and "z3.If(z3_value>=0,z3_value,-z3_value)" in ta
-    return ok
-
-
 def _branch_class(b, m, sdiv_ok):
     """Semantic class of one branch from the statement assigning `res`."""
     asg = [n for st in b["body"] for n in walk_local(st) if isinstance(n, ast.Assign) and norm(n.targets[0]) == "res"]
@@ -52,8 +41,7 @@ def _branch_class(b, m, sdiv_ok):
     if isinstance(v, ast.Call) and callee_attr(v) == "eval" and "'res %s arg' % expr.op" in norm(v):
         return "TOKEN", t
     if isinstance(v, ast.Call) and dotted(v.func) in ("z3.ZeroExt", "z3.SignExt"):
-        ok = norm(v.args[0]).replace(" ", "") == "expr.size-arg.size" and norm(v.args[1]) == "self.from_expr(arg)"
-        return (Z3F[dotted(v.func)[3:]] if ok else "?ext"), t
+        return Z3F[dotted(v.func)[3:]], t          # the extension amount / operand are decided on the built term (z3_extension_rules)
     if isinstance(v, ast.Call) and dotted(v.func) and dotted(v.func).startswith("z3.") and dotted(v.func)[3:] in Z3F and dotted(v.func)[3:] not in ("If",):
         a = [norm(x) for x in v.args]
         if a == ["res", "arg"]:
@@ -62,10 +50,12 @@ def _branch_class(b, m, sdiv_ok):
     if isinstance(v, ast.BinOp) and norm(v.left) == "res" and norm(v.right) == "arg":
         from rules.c03 import PYOP
         return Z3P.get(PYOP.get(type(v.op), "?"), "?"), t
-    if t == "self._sdivC(expr.args[0],expr.args[1])":
-        return ("SDIV_TRUNC" if sdiv_ok else "SDIV_HELPER_CHANGED"), t
-    if t == "res-arg*self._sdivC(expr.args[0],expr.args[1])":
-        return ("SREM_DIVIDEND" if sdiv_ok else "SREM_HELPER_CHANGED"), t
+    # the two composites built on the signed-division helper: their formula is decided on the built term (z3_sdiv_rules)
+    uses_helper = any(isinstance(x, ast.Call) and callee_attr(x) == "_sdivC" for x in walk_local(v))
+    if uses_helper and isinstance(v, ast.Call) and callee_attr(v) == "_sdivC":
+        return "SDIV_TRUNC", t
+    if uses_helper:
+        return "SREM_DIVIDEND", t
     # comparisons: z3.If(<cmp>, BitVecVal(1,1), BitVecVal(0,1))
     if isinstance(v, ast.Call) and dotted(v.func) == "z3.If" and len(v.args) == 3 and norm(v.args[1]).replace(" ", "") == "z3.BitVecVal(1,1)" \
             and norm(v.args[2]).replace(" ", "") == "z3.BitVecVal(0,1)":
@@ -80,6 +70,9 @@ def _branch_class(b, m, sdiv_ok):
     return "COMPOSITE", t
 
 
+from rules import _composites as _cmp
+
+
 def run(ck):
     m = ck.repo.mod(REL)
     cls = m.cls("TranslatorZ3")
@@ -92,9 +85,9 @@ def run(ck):
     translator_cache_rules(ck, "TC")
 
     consts = tok_consts(ck.repo)
-    sdiv_ok = _classify_sdivC(m)
-    ck.ob("R1", "helper:_sdivC", sdiv_ok, m.where(m.func("TranslatorZ3._sdivC")),
-          "_sdivC is no longer UDiv(|num|, |den|) * sign(num*den) on doubled-width sign extensions (truncating signed division)")
+    sdiv_ok = True
+    _cmp.z3_sdiv_rules(ck, "R1", m.where(m.func("TranslatorZ3._sdivC")))
+    _cmp.z3_extension_rules(ck, "R1", m.where(fn))
     seen = {}
     for b in op_branches(fn, m, cls, consts=consts):
         got, txt = _branch_class(b, m, sdiv_ok)
@@ -128,17 +121,10 @@ def run(ck):
                 ck.ob("R1", "z3:%s" % key, cls_got == "NEG", m.where(node), "unary minus is translated as %s" % cls_got)
             else:
                 # composites: parity / zero counts - structural skeleton
-                body = norm(ast.Module(body=list(node.body), type_ignores=[])).replace(" ", "")
                 if op == "parity":
-                    ok = "arg=z3.Extract(7,0,res)" in body and "res=z3.BitVecVal(1,1)" in body and "foriinrange(8):" in body and "res=res^z3.Extract(i,i,arg)" in body
-                    ck.ob("R1", "z3:%s" % key, ok, m.where(node), "parity must be 1 xor the 8 low bits (even parity of the low byte = 1)")
-                elif op == "cnttrailzeros":
-                    ok = "res=z3.If(src==0,size,src)" in body and "foriinrange(size-1,-1,-1):" in body and "res=z3.If(src&1<<i!=0,i,res)" in body
-                    ck.ob("R1", "z3:%s" % key, ok, m.where(node), "cnttrailzeros must give the width for 0 and the lowest set bit's index otherwise")
-                elif op == "cntleadzeros":
-                    ok = "res=z3.If(src==0,size,src)" in body and "foriinrange(size,0,-1):" in body and "index=-i%size" in body and \
-                        "out=size-(index+1)" in body and "res=z3.If(src&1<<index!=0,out,res)" in body
-                    ck.ob("R1", "z3:%s" % key, ok, m.where(node), "cntleadzeros must give the width for 0 and width-1-msb_index otherwise")
+                    _cmp.parity_rule(ck, "R1", "z3", m.where(node))
+                elif op in ("cnttrailzeros", "cntleadzeros"):
+                    _cmp.zero_count_rule(ck, "R1", "z3", op, m.where(node))
                 else:
                     ck.ob("R1", "z3:%s" % key, False, m.where(node), "unary operator %r has no reference skeleton" % op)
 
